@@ -8,7 +8,7 @@ import (
 func c09Opts(tier string) (map[string]interface{}, int, time.Duration) {
 	base := map[string]interface{}{
 		"relay": true, "templates": []string{"e", "ca", "pa", "sa"}, "patterns": []string{"E", "R", "D"},
-		"max_reorg": 2, "max_queue": 2, "max_height": 6, "max_relay": 3, "no_b": true,
+		"max_reorg": 2, "max_queue": 2, "max_height": 6, "max_relay": 3, "no_b": true, "restart": true,
 	}
 	if tier == "thorough" {
 		base["max_queue"] = 3
